@@ -155,6 +155,7 @@ static void close_pages()
 struct call
 {
     int opc = 0;
+    bool raw = false; // fixed-length array operations: through arr.raw()
     std::vector<long> a;
     bytes v;
 };
@@ -609,6 +610,8 @@ long data_op(D d, char* p, const call& c)
             -> long                                                           \
         {                                                                     \
             auto par = LV(M{p, n}, ip) PARENT;                                \
+            if(c.raw)                                                         \
+                return ::c10::array_op(par.ACC().raw(), p, c);                \
             return ::c10::array_op(par.ACC(), p, c);                          \
         })
 
@@ -751,7 +754,9 @@ op_t resolve(const image_t& im, const json& o)
     op.sigkind = op.kind;
     op.far = o["far"].get<bool>();
     op.src = &o;
-    const int opc = c10::opcode_of(op.kind);
+    // "rarr_x": the array operation x through the byte-typed view arr.raw()
+    const bool raw = op.kind.compare(0, 5, "rarr_") == 0;
+    const int opc = c10::opcode_of(raw ? op.kind.substr(1) : op.kind);
     if(opc < 0)
     {
         std::fprintf(stderr, "unknown operation kind %s\n", op.kind.c_str());
@@ -765,6 +770,7 @@ op_t resolve(const image_t& im, const json& o)
     ipv->push_back(0);
     auto cl = std::make_shared<c10::call>();
     cl->opc = opc;
+    cl->raw = raw;
     for(const auto& x : o["a"])
         cl->a.push_back(x.get<long>());
     cl->v = to_bytes(o["v"]);
@@ -837,7 +843,7 @@ op_t resolve(const image_t& im, const json& o)
         own("cm|" + lkey + ":" + name);
         break;
     default:
-        if(op.kind.compare(0, 4, "arr_") == 0)
+        if(op.kind.compare(0, 4, "arr_") == 0 || raw)
             own("array|" + lkey + ":" + name);
         else if(op.kind.compare(0, 2, "g_") == 0)
             own("group|" + lkey + ":" + name);
